@@ -52,8 +52,11 @@ prop("C09", "Message structures: accepted iff they match their CDDL, slots map t
          "quick": "top-level arrays of arity 0..6 with every CBOR kind in every slot; nested arrays "
                   "bounded by a total of 10 array elements per input (one nested signature/recipient); "
                   "header maps with at most 1 entry in total per input (C08 explores headers); nesting "
-                  "depth 4; integers: all of [-2^64, 2^64-1]; byte strings: symbolic 64-bit length",
-         "thorough": "arity 0..7, 14 array elements and 2 map entries per input, depth 5, text <= 2",
+                  "depth 4; integers: all of [-2^64, 2^64-1]; byte strings: symbolic 64-bit length; "
+                  "COSE_Sign / COSE_Recipient with up to 3 nested siblings (order of signatures / recipients); "
+                  "counter-signature nesting spines of 1..12 levels (protected / unprotected headers, bare / "
+                  "list form): accepted exactly up to the crate's documented MAX_COUNTER_SIGNATURE_DEPTH",
+         "thorough": "arity 0..7, 14 array elements and 2 map entries per input, depth 5, text <= 2; spines to 16 levels",
      },
      outside="longer nested lists and larger header maps than the stated budgets; bytes inside "
              "protected headers are related to their parse only through the parser stub",
@@ -102,7 +105,8 @@ prop("C08", "Header maps: accepted iff well-formed, and every field means what t
 
 prop("C10", "COSE_Key / COSE_KeySet: accepted iff well-formed, parameters map to fields",
      mirsym={"jobs": _jl("c10"), "budget_s": {"quick": 900, "thorough": 3000}},
-     bounds={"quick": "key maps with <= 2 entries, key_ops arrays <= 3; key sets of <= 2 keys with 3 entries in total",
+     bounds={"quick": "key maps with <= 2 entries, key_ops arrays <= 3; key maps with exactly 3 entries whose values "
+                      "are integers or byte strings (wire order of parameters); key sets of <= 2 keys with 3 entries in total",
              "thorough": "key maps <= 3 entries; key sets <= 3 keys, 4 entries in total"},
      outside="larger maps / sets", assumptions=[])
 
@@ -172,14 +176,16 @@ prop("C02", "Protected-header bytes are kept and reused bit-for-bit, never re-en
      assumptions=_STRUCT_ASSUME)
 prop("C07", "Decode-encode reaches a fixed point in one step and loses nothing",
      mirsym={"jobs": _jl("c07"), "budget_s": {"quick": 900, "thorough": 3000}},
-     bounds=_RT_BOUNDS, outside="bignum-tagged integers and indefinite lengths are parser-level (stub)",
+     bounds={k: v + "; counter-signature nesting spines of 1..%d levels (protected / unprotected headers, bare / "
+                    "list form)" % (12 if k == "quick" else 16) for k, v in _RT_BOUNDS.items()},
+     outside="bignum-tagged integers and indefinite lengths are parser-level (stub)",
      assumptions=["parse(enc(v)) = v for byte strings written on the same path"])
 prop("C11", "Encoding emits exactly the modelled content in the documented CBOR shape",
      mirsym={"jobs": _jl("c11"), "budget_s": {"quick": 900, "thorough": 3000}},
      bounds={"quick": _RT_BOUNDS["quick"] + "; values are the builder-made twins of decoded values (retained "
                       "bytes dropped) plus struct literals of Header / CoseKey / ClaimsSet with every subset of "
-                      "typed fields and 1 arbitrary extra label",
-             "thorough": _RT_BOUNDS["thorough"] + "; 2 arbitrary extra labels"},
+                      "typed fields and 2 arbitrary extra labels",
+             "thorough": _RT_BOUNDS["thorough"] + "; 3 arbitrary extra labels"},
      outside="byte-level well-formedness of the output is ciborium's (serialiser stub)",
      assumptions=["parse(enc(v)) = v for byte strings written on the same path"])
 prop("C13", "An accepted input is exactly one CBOR item; byte and Value APIs agree",
@@ -212,8 +218,10 @@ prop("C01", "Untrusted bytes never crash decoding or the processing that follows
                       "nested arrays <= 3, 1 map entry in total, depth 4; follow-ups on every accepted value: "
                       "to_cbor_value, re-decode, tbs/verify/MAC/decrypt helpers with arbitrary AAD / detached "
                       "payload; nesting spine counter-signature -> protected header explored to 8 levels "
-                      "symbolically and replayed natively at 2000 levels on a 2 MiB thread",
-             "thorough": "3 map entries in total, depth 5, spine to 64 levels"},
+                      "symbolically and replayed natively at 2000 levels on a 2 MiB thread; spines of 1..12 "
+                      "levels through protected / unprotected headers in bare / list form are never accepted "
+                      "beyond the crate's documented MAX_COUNTER_SIGNATURE_DEPTH",
+             "thorough": "3 map entries in total, depth 5, spine to 64 levels (16 for the four-variant spines)"},
      outside="ciborium's own totality, recursion limit and allocation behaviour; running time and memory; "
              "Debug/Display output; Clone/PartialEq of decoded values (derived impls, not executed)",
      assumptions=["the `std` feature changes no function body: checked on each run by comparing the MIR dumps "
